@@ -68,6 +68,11 @@ MRCAIn(par, u, v) ==
         C == {i \in 1..Len(pu) : IsDescendant(par, v, pu[i])}
     IN IF C = {} THEN NULL ELSE pu[Min(C)]
 
+\* most recent common ancestor of a set of nodes: the common ancestor (a node counts as its own ancestor) below all others
+MRCASet(par, U) ==
+    LET common == {a \in DOMAIN par : \A u \in U : IsDescendant(par, u, a)}
+    IN IF common = {} THEN NULL ELSE CHOOSE a \in common : \A b \in common : IsDescendant(par, a, b)
+
 \* The five linked-list arrays of the quintuply linked tree (each a sequence of length
 \* N+1, slot N+1 = virtual root) are consistent with a parent map and a root set:
 \* the chain left_child[u], right_sib, ... ends at right_child[u], lists exactly the
